@@ -383,6 +383,12 @@ def run_env_case(ctx, case):
                 bad.append(("env_machine_out_of_range", (j, -2)))
                 if len(r.op_machines[o]) > 1:
                     bad.append(("env_minus_one_flexible", (j, -1)))
+                # ids far outside the range, handed over as a numpy int64 array (they would be valid
+                # ids if they were wrapped to 32 bits)
+                import numpy as np
+                mm = r.op_machines[o][0]
+                bad.append(("env_job_plus_2_to_32", np.array([j + 2**32, mm], dtype=np.int64)))
+                bad.append(("env_machine_minus_2_to_32", np.array([j, mm - 2**32], dtype=np.int64)))
         bad.append(("env_job_out_of_range", (J, -1)))
         bad.append(("env_job_out_of_range", (J + 7, 0)))
         for kind, action in bad:
@@ -395,7 +401,7 @@ def run_env_case(ctx, case):
             after = env_snapshot(envA, True)
             ctx.count("env_injections")
             ctx.count("kind_" + kind)
-            w = {"fault": kind, "action": action, "position": pos,
+            w = {"fault": kind, "action": [int(x) for x in action], "position": pos,
                  "history": list(r.history), "raised": raised}
             if raised is None:
                 ctx.violation("c09_env_invalid_step_accepted", w)
@@ -404,7 +410,7 @@ def run_env_case(ctx, case):
                 w["changed"] = _snap.diff_keys(before, after)[:12]
                 ctx.violation("c09_env_state_changed_by_rejected_step", w)
             if r.scheduled() and r.unscheduled():
-                ctx.distinct.add(f"{hash((gen.fingerprint(inst), tuple(r.history), kind, action))}")
+                ctx.distinct.add(f"{hash((gen.fingerprint(inst), tuple(r.history), kind, tuple(int(x) for x in action)))}")
         if r.complete():
             break
         avail = envB.dispatcher.available_operations()
